@@ -118,10 +118,12 @@ func (l defaultLogger) With(fs ...ContextField) Logger {
 		e = f(e)
 	}
 	return defaultLogger{
-		printer:       l.printer,
-		factory:       l.factory,
-		level:         l.level,
-		defaultFields: append(l.defaultFields, e.(*defaultEvent).fields...),
+		printer: l.printer,
+		factory: l.factory,
+		level:   l.level,
+		// the fields are copied: appending to l.defaultFields would write into the spare capacity of an
+		// array shared by every logger derived from l (one per transaction, concurrently)
+		defaultFields: append(append(make([]byte, 0, len(l.defaultFields)+len(e.(*defaultEvent).fields)), l.defaultFields...), e.(*defaultEvent).fields...),
 	}
 }
 
@@ -130,7 +132,7 @@ func (l defaultLogger) Trace() Event {
 		return noopEvent{}
 	}
 
-	return &defaultEvent{printer: l.printer, level: LevelTrace, fields: l.defaultFields}
+	return &defaultEvent{printer: l.printer, level: LevelTrace, fields: l.defaultFields[:len(l.defaultFields):len(l.defaultFields)]}
 }
 
 func (l defaultLogger) Debug() Event {
@@ -138,7 +140,7 @@ func (l defaultLogger) Debug() Event {
 		return noopEvent{}
 	}
 
-	return &defaultEvent{printer: l.printer, level: LevelDebug, fields: l.defaultFields}
+	return &defaultEvent{printer: l.printer, level: LevelDebug, fields: l.defaultFields[:len(l.defaultFields):len(l.defaultFields)]}
 }
 
 func (l defaultLogger) Info() Event {
@@ -146,7 +148,7 @@ func (l defaultLogger) Info() Event {
 		return noopEvent{}
 	}
 
-	return &defaultEvent{printer: l.printer, level: LevelInfo, fields: l.defaultFields}
+	return &defaultEvent{printer: l.printer, level: LevelInfo, fields: l.defaultFields[:len(l.defaultFields):len(l.defaultFields)]}
 }
 
 func (l defaultLogger) Warn() Event {
@@ -154,7 +156,7 @@ func (l defaultLogger) Warn() Event {
 		return noopEvent{}
 	}
 
-	return &defaultEvent{printer: l.printer, level: LevelWarn, fields: l.defaultFields}
+	return &defaultEvent{printer: l.printer, level: LevelWarn, fields: l.defaultFields[:len(l.defaultFields):len(l.defaultFields)]}
 }
 
 func (l defaultLogger) Error() Event {
@@ -162,7 +164,7 @@ func (l defaultLogger) Error() Event {
 		return noopEvent{}
 	}
 
-	return &defaultEvent{printer: l.printer, level: LevelError, fields: l.defaultFields}
+	return &defaultEvent{printer: l.printer, level: LevelError, fields: l.defaultFields[:len(l.defaultFields):len(l.defaultFields)]}
 }
 
 // Default returns a default logger that writes to stderr.
